@@ -474,6 +474,7 @@ type sysObs struct {
 	gotHost string
 	gotPort int
 	inChan  string
+	alive   bool
 	newErr  error
 	openErr error
 	argv    []string
@@ -514,6 +515,7 @@ func (k *sysCase) run(e *c14env) (o sysObs) {
 	os.Setenv("VERIF_C14_ARGV", rec)
 	defer os.Unsetenv("VERIF_C14_ARGV")
 	o.openErr = tr.Open()
+	o.alive = tr.IsAlive()
 	if o.openErr == nil {
 		deadline := time.Now().Add(15 * time.Second)
 		for time.Now().Before(deadline) {
@@ -790,6 +792,10 @@ func c14Sys(c *ctx, e *c14env, seeds []uint64) {
 		}
 		if k.noBin {
 			res.Count("sys-no-such-binary")
+		}
+		// the system transport is "alive" as soon as, and only if, the ssh process was spawned
+		if o.alive != (o.openErr == nil) {
+			res.Fail("correspondence", line, fmt.Sprintf("IsAlive() = %v after Open returned %v", o.alive, o.openErr), "c14-sys-alive-differs")
 		}
 		// --- correspondence: model vs implementation
 		if fields[1] == "err" {
@@ -1160,6 +1166,7 @@ type stdRun struct {
 	// driver-level use of the session
 	prompt    string
 	promptErr error
+	alive     bool // Transport.IsAlive() right after Open returned
 }
 
 // stdOpen builds a fresh driver for k against srv and opens / closes it once. The known-hosts file
@@ -1254,6 +1261,7 @@ func stdOpen(e *c14env, k *stdCase, srv *sim.SSHServer, khPath string, khNow khK
 	case gd != nil && k.drvOpen:
 		// the whole driver: channel read loop on Standard.Read, a prompt round trip on Standard.Write
 		r.openErr = gd.Open()
+		r.alive = tr.IsAlive()
 		if r.openErr == nil {
 			waitReqs()
 			r.prompt, r.promptErr = gd.GetPrompt()
@@ -1261,6 +1269,7 @@ func stdOpen(e *c14env, k *stdCase, srv *sim.SSHServer, khPath string, khNow khK
 		}
 	default:
 		r.openErr = tr.Open()
+		r.alive = tr.IsAlive()
 		if r.openErr == nil {
 			waitReqs()
 		}
@@ -1445,6 +1454,12 @@ func evalStd(c *ctx, e *c14env, r *stdRun, model, newErrWant, inchan string) {
 		if !okCred || ev.User != k.user {
 			res.Fail("oracle", line, fmt.Sprintf("%sserver was offered %s %q for user %q; configured user=%q key=%q password-set=%v", r.what, ev.Method, ev.Cred, ev.User, k.user, r.keyPath, k.usePw), "c14-std-"+r.sig+"unconfigured-credential")
 		}
+	}
+	// IsAlive must not claim a connection that was refused
+	if r.alive && o.handshakes == 0 {
+		res.Fail("oracle", line, fmt.Sprintf("%sIsAlive() is true although no connection was established (Open: %v)", r.what, r.openErr), "c14-std-"+r.sig+"alive-without-connection")
+	} else if r.alive != (r.openErr == nil) && !(k.drvOpen && !k.netconf) {
+		res.Fail("correspondence", line, fmt.Sprintf("%sIsAlive() = %v after Open returned %v", r.what, r.alive, r.openErr), "c14-std-"+r.sig+"alive-differs")
 	}
 	if k.usePw && bytes.Contains(o.stdin, []byte(k.pw)) && !strings.Contains("\n", k.pw) {
 		res.Fail("oracle", line, fmt.Sprintf("%sthe password was written into the session (server read %q on the channel)", r.what, o.stdin), "c14-std-"+r.sig+"password-in-session")
@@ -1741,6 +1756,12 @@ func c14Real(c *ctx, e *c14env, cells []int, seeds []uint64) {
 		if len(k.extra) > 0 {
 			opts = append(opts, options.WithSystemTransportOpenArgs(k.extra))
 		}
+		viaDriver := r.Bool()
+		bypass := viaDriver && keyPath != "" && r.Chance(1, 2)
+		if bypass {
+			// key authentication needs no in-channel dialogue: with WithAuthBypass the channel types nothing at all
+			opts = append(opts, options.WithAuthBypass())
+		}
 		d, err := generic.NewDriver(k.host, opts...)
 		if err != nil {
 			res.Fail("correspondence", line, fmt.Sprintf("NewDriver failed: %v", err), "c14-real-newdriver-error")
@@ -1753,7 +1774,9 @@ func c14Real(c *ctx, e *c14env, cells []int, seeds []uint64) {
 		var out []byte
 		sawPrompt, typed := false, 0
 		var openErr error
-		viaDriver := r.Bool()
+		if bypass {
+			res.Count("real WithAuthBypass")
+		}
 		if viaDriver {
 			// the whole driver: Channel.Open does the in-channel authentication (types the password at ssh's prompt)
 			derr := d.Open()
